@@ -1,0 +1,33 @@
+//go:build verif
+
+package io
+
+import (
+	"os"
+	"time"
+
+	"github.com/ipfs/go-cid"
+)
+
+// Exports for the /verif correspondence harness (property C17). Add-only:
+// nothing here is compiled without the `verif` build tag.
+
+// VerifEstimatedSize returns the size the basic directory currently uses for
+// its sharding decision (the package-internal estimatedSize field).
+func VerifEstimatedSize(d *BasicDirectory) int { return d.estimatedSize }
+
+// VerifTotalLinks returns the tracked number of links.
+func VerifTotalLinks(d *BasicDirectory) int { return d.totalLinks }
+
+// VerifVarintLen exposes varintLen.
+func VerifVarintLen(v uint64) int { return varintLen(v) }
+
+// VerifLinkSerializedSize exposes linkSerializedSize.
+func VerifLinkSerializedSize(name string, c cid.Cid, tsize uint64) int {
+	return linkSerializedSize(name, c, tsize)
+}
+
+// VerifDataFieldSerializedSize exposes dataFieldSerializedSize.
+func VerifDataFieldSerializedSize(mode os.FileMode, mtime time.Time) int {
+	return dataFieldSerializedSize(mode, mtime)
+}
